@@ -168,11 +168,13 @@ func checkKernel(w *load.World, c *core.Collector, f *asmFunc, props []string) {
 	wts := map[string]int64{cnt: 1}
 	hiOf := map[string]int64{}
 	skip := map[int]bool{}
+	byteUnit := map[string]bool{} // counters that count bytes, not elements
+	byteMod := map[string]int64{}
 	for i, in := range f.ins {
 		if in.op == "MOVQ" && len(in.args) == 2 && in.args[0] == cnt && !strings.Contains(in.args[1], "(") {
 			cp := in.args[1]
-			var shr, and = -1, -1
-			var k, mask int64
+			var shr, and, shl = -1, -1, -1
+			var k, mask, jsh int64
 			for j := i + 1; j < len(f.ins) && j < i+6; j++ {
 				jn := f.ins[j]
 				if len(jn.args) != 2 {
@@ -185,6 +187,8 @@ func checkKernel(w *load.World, c *core.Collector, f *asmFunc, props []string) {
 				switch {
 				case jn.op == "SHRQ" && jn.args[1] == cp:
 					shr, k = j, v
+				case jn.op == "SHLQ" && jn.args[1] == cp && shr >= 0:
+					shl, jsh = j, v
 				case jn.op == "ANDQ" && jn.args[1] == cnt:
 					and, mask = j, v
 				}
@@ -193,6 +197,12 @@ func checkKernel(w *load.World, c *core.Collector, f *asmFunc, props []string) {
 				wts[cp] = int64(1) << uint(k)
 				hiOf[cnt] = mask
 				skip[i], skip[shr], skip[and] = true, true, true
+				if shl >= 0 && jsh == k+2 {
+					// (n >> k) << (k+2): the whole blocks in bytes; one unit is one byte
+					byteUnit[cp] = true
+					byteMod[cp] = int64(4) << uint(k)
+					skip[shl] = true
+				}
 			}
 		}
 	}
@@ -209,8 +219,58 @@ func checkKernel(w *load.World, c *core.Collector, f *asmFunc, props []string) {
 	}
 	limits := map[string]limitInfo{}
 	idxReg := ""
+	// Negated index: both pointers are moved past the region a counter stands for ("ADDQ C, px" or
+	// "LEAQ (px)(C*s), px", same for py), the counter is negated, and the elements are read as
+	// (px)(C*s) while C climbs to zero. C still is what remains of its region, the cursor is
+	// px + C*s, and "ADDQ $v, C" consumes v units.
+	type negConv struct {
+		reg   string
+		scale int64
+	}
+	negAt := map[int]negConv{}
+	for i, in := range f.ins {
+		if in.op != "NEGQ" || len(in.args) != 1 {
+			continue
+		}
+		cr := in.args[0]
+		if _, isCtr := wts[cr]; !isCtr {
+			continue
+		}
+		var sx, sy int64
+		var ix, iy = -1, -1
+		for j := i - 1; j >= 0 && j >= i-6; j-- {
+			jn := f.ins[j]
+			if jn.op == "JMP" || jn.op == "RET" || (len(jn.op) >= 2 && jn.op[0] == 'J') {
+				break
+			}
+			if len(jn.args) != 2 {
+				continue
+			}
+			switch {
+			case jn.op == "ADDQ" && jn.args[0] == cr && jn.args[1] == px:
+				sx, ix = 1, j
+			case jn.op == "ADDQ" && jn.args[0] == cr && jn.args[1] == py:
+				sy, iy = 1, j
+			case jn.op == "LEAQ":
+				if m := memRe.FindStringSubmatch(jn.args[0]); m != nil && m[1] == "" && m[3] == cr && m[2] == jn.args[1] {
+					sc, _ := strconv.ParseInt(m[4], 10, 64)
+					if jn.args[1] == px {
+						sx, ix = sc, j
+					}
+					if jn.args[1] == py {
+						sy, iy = sc, j
+					}
+				}
+			}
+		}
+		if ix >= 0 && iy >= 0 && sx == sy && sx > 0 {
+			negAt[i] = negConv{cr, sx}
+			skip[i], skip[ix], skip[iy] = true, true, true
+		}
+	}
+	negForm := len(negAt) > 0
 	for _, in := range f.ins {
-		if in.op == "LEAQ" {
+		if in.op == "LEAQ" || negForm {
 			continue // computes an address, reads nothing
 		}
 		for _, a := range in.args {
@@ -344,7 +404,7 @@ func checkKernel(w *load.World, c *core.Collector, f *asmFunc, props []string) {
 		}
 	}
 	hybrid := len(convAt) > 0
-	if virtual || hybrid {
+	if virtual || hybrid || negForm {
 		// the count register is not counted down in these forms: that every element is consumed is what
 		// the symbolic traversal below establishes (the limit counters are zero at RET)
 		checkRegisterFlow(w, c, f, "", props)
@@ -438,6 +498,60 @@ func checkKernel(w *load.World, c *core.Collector, f *asmFunc, props []string) {
 			}
 		}
 	}
+	// from where on a counter is a negated index (bit set per block entry: 1 plain, 2 negated)
+	entryNeg := map[string][]int{}
+	if negForm {
+		for _, nc := range negAt {
+			entryNeg[nc.reg] = make([]int, len(blocks))
+		}
+		for reg, modes := range entryNeg {
+			modes[0] = 1
+			for iter := 0; iter < len(blocks)+2; iter++ {
+				for bi, b := range blocks {
+					if modes[bi] == 0 {
+						continue
+					}
+					out := modes[bi]
+					for i := b.start; i <= b.end; i++ {
+						if nc, ok := negAt[i]; ok && nc.reg == reg {
+							out = 2
+						}
+					}
+					push := func(t int) {
+						if t >= 0 && t < len(blocks) {
+							modes[t] |= out
+						}
+					}
+					last := f.ins[b.end]
+					switch {
+					case last.op == "RET":
+					case last.op == "JMP":
+						if t, ok := f.label[last.args[0]]; ok {
+							push(blockAt[t])
+						}
+					case isJcc(last.op):
+						if t, ok := f.label[last.args[0]]; ok {
+							push(blockAt[t])
+						}
+						push(bi + 1)
+					default:
+						push(bi + 1)
+					}
+				}
+			}
+		}
+	}
+	negScale := map[string]int64{}
+	for _, nc := range negAt {
+		negScale[nc.reg] = nc.scale
+	}
+	// bytes of each operand that one unit of a counter stands for
+	bytesPer := func(r string) int64 {
+		if byteUnit[r] {
+			return 1
+		}
+		return 4 * wts[r]
+	}
 	const inf = int64(1) << 40
 	_ = primaryLimit
 	type ival struct{ lo, hi, mod int64 } // lo <= v <= hi and v is a multiple of mod (mod <= 1: no information)
@@ -508,10 +622,21 @@ func checkKernel(w *load.World, c *core.Collector, f *asmFunc, props []string) {
 		hasCmp bool
 		ret    bool
 		jmp    bool
+		// negated-index loads: the index register used, at which other pre-advanced counters must be zero
+		idxUsed map[string]bool
 	}
 	sums := make([]bsum, len(blocks))
 	for bi, b := range blocks {
-		sm := bsum{loadsX: map[int64]int64{}, loadsY: map[int64]int64{}, dcs: map[string]int64{}, target: -1}
+		sm := bsum{loadsX: map[int64]int64{}, loadsY: map[int64]int64{}, dcs: map[string]int64{}, target: -1, idxUsed: map[string]bool{}}
+		negNow := map[string]bool{}
+		for reg, modes := range entryNeg {
+			if modes[bi] == 2 {
+				negNow[reg] = true
+			}
+			if modes[bi] == 3 {
+				sm.bad = "the register " + reg + " is a count on one way into this block and a negated index on another"
+			}
+		}
 		flagsOK := false
 		flagReg := ""
 		var cmpK int64
@@ -524,6 +649,12 @@ func checkKernel(w *load.World, c *core.Collector, f *asmFunc, props []string) {
 			in := f.ins[i]
 			if convAt[i] {
 				asLimit = true
+			}
+			if nc, ok := negAt[i]; ok {
+				negNow[nc.reg] = true
+				if bytesPer(nc.reg) != nc.scale {
+					sm.bad = fmt.Sprintf("the pointers are moved by %d bytes per unit of %s, which stands for %d bytes per unit", nc.scale, nc.reg, bytesPer(nc.reg))
+				}
 			}
 			if skip[i] {
 				continue
@@ -546,7 +677,14 @@ func checkKernel(w *load.World, c *core.Collector, f *asmFunc, props []string) {
 				if width <= 0 {
 					continue
 				}
-				if (m[2] == px || m[2] == py) && (m[3] != "") != (idxReg != "") {
+				if negForm && (m[2] == px || m[2] == py) {
+					sc, _ := strconv.ParseInt(m[4], 10, 64)
+					if m[3] == "" || !negNow[m[3]] || sc != negScale[m[3]] {
+						sm.bad = fmt.Sprintf("%s %s: not addressed through the negated index of the region being read", in.op, a)
+						continue
+					}
+					sm.idxUsed[m[3]] = true
+				} else if (m[2] == px || m[2] == py) && (m[3] != "") != (idxReg != "") {
 					sm.bad = fmt.Sprintf("%s %s: mixes indexed and plain addressing of the operands", in.op, a)
 					continue
 				}
@@ -578,6 +716,13 @@ func checkKernel(w *load.World, c *core.Collector, f *asmFunc, props []string) {
 					sm.bad = fmt.Sprintf("%s %s: not a constant step", in.op, strings.Join(in.args, ", "))
 				}
 				switch {
+				case negNow[dst]:
+					if sign < 0 || !isImm {
+						sm.bad = fmt.Sprintf("%s on the negated index %s", in.op, dst)
+					}
+					sm.dcs[dst] += v
+					sm.dx += v * negScale[dst]
+					sm.dy += v * negScale[dst]
 				case idxReg != "" && dst == idxReg:
 					// the index is shared by both operands: each cursor moves by 4 bytes per unit
 					sm.dx += 4 * sign * v
@@ -600,12 +745,20 @@ func checkKernel(w *load.World, c *core.Collector, f *asmFunc, props []string) {
 					sm.dcs[dst] -= sign * v
 				}
 				flagsOK, flagReg, cmpK = isCounter(dst) && !virtual && !asLimit, dst, 0
+				cmpVirtual, cmpCursorFirst = negNow[dst], negNow[dst] // the register holds minus what remains
 			case "INCQ", "DECQ":
 				sign := int64(1)
 				if in.op == "DECQ" {
 					sign = -1
 				}
 				switch {
+				case negNow[dst]:
+					if sign < 0 {
+						sm.bad = in.op + " on the negated index " + dst
+					}
+					sm.dcs[dst] += 1
+					sm.dx += negScale[dst]
+					sm.dy += negScale[dst]
 				case idxReg != "" && dst == idxReg:
 					sm.dx += 4 * sign
 					sm.dy += 4 * sign
@@ -617,6 +770,7 @@ func checkKernel(w *load.World, c *core.Collector, f *asmFunc, props []string) {
 					sm.dcs[dst] -= sign
 				}
 				flagsOK, flagReg, cmpK = isCounter(dst) && !virtual, dst, 0
+				cmpVirtual, cmpCursorFirst = negNow[dst], negNow[dst]
 			case "CMPQ":
 				flagsOK = false
 				cmpCursorFirst, cmpVirtual = false, false
@@ -637,10 +791,15 @@ func checkKernel(w *load.World, c *core.Collector, f *asmFunc, props []string) {
 				} else if isCounter(in.args[0]) {
 					if v, ok := imm(in.args[1]); ok {
 						flagsOK, flagReg, cmpK = true, in.args[0], v
+						if negNow[in.args[0]] {
+							flagsOK = v == 0
+							cmpVirtual, cmpCursorFirst = true, true
+						}
 					}
 				}
 			case "TESTQ":
 				flagsOK, flagReg, cmpK = !virtual && len(in.args) == 2 && isCounter(in.args[0]) && in.args[1] == in.args[0], in.args[0], 0
+				cmpVirtual, cmpCursorFirst = negNow[in.args[0]], negNow[in.args[0]]
 			case "MOVQ", "LEAQ", "XORQ", "ANDQ", "ORQ", "SHLQ", "SHRQ", "NEGQ", "IMULQ":
 				if dst == px || dst == py || isCounter(dst) || (idxReg != "" && dst == idxReg) {
 					// the prologue loads them; later writes are outside the vocabulary
@@ -780,7 +939,11 @@ func checkKernel(w *load.World, c *core.Collector, f *asmFunc, props []string) {
 		if h, ok := hiOf[r]; ok {
 			hi = h
 		}
-		entry[0][r] = ival{0, hi, mods[r]}
+		m0 := mods[r]
+		if bm, ok := byteMod[r]; ok {
+			m0 = bm
+		}
+		entry[0][r] = ival{0, hi, m0}
 	}
 	// the limits of the cursor forms are tied to the full length: 0 <= V_length - V_rounded < 2^k
 	tie := func(v ivals) (ivals, bool) {
@@ -938,11 +1101,14 @@ func checkKernel(w *load.World, c *core.Collector, f *asmFunc, props []string) {
 			continue
 		}
 		sm := sums[bi]
-		var dcTotal, avail int64 // floats the block takes; floats known to remain at its entry
+		var dcTotal, avail int64 // bytes of each operand the block takes; bytes known to remain at its entry
 		overdraw := ""
 		for _, r := range regs {
-			dcTotal += wts[r] * sm.dcs[r]
-			avail += wts[r] * entry[bi][r].lo
+			if wts[r] == 0 {
+				continue
+			}
+			dcTotal += bytesPer(r) * sm.dcs[r]
+			avail += bytesPer(r) * entry[bi][r].lo
 			if wts[r] > 0 && sm.dcs[r] > entry[bi][r].lo {
 				overdraw = fmt.Sprintf("the block takes %d off %s but the branches leading here only establish that it is at least %d", sm.dcs[r], r, entry[bi][r].lo)
 			}
@@ -975,21 +1141,33 @@ func checkKernel(w *load.World, c *core.Collector, f *asmFunc, props []string) {
 		if sm.dx != sm.dy {
 			probs = append(probs, fmt.Sprintf("x advances by %d bytes, y by %d", sm.dx, sm.dy))
 		}
-		if dcTotal <= 0 || sm.dx != 4*dcTotal {
-			probs = append(probs, fmt.Sprintf("pointers advance by %d bytes while the count drops by %d floats", sm.dx, dcTotal))
+		if dcTotal <= 0 || sm.dx != dcTotal {
+			probs = append(probs, fmt.Sprintf("pointers advance by %d bytes while the count drops by %d floats", sm.dx, dcTotal/4))
+		}
+		// with negated indexes the pointers stand at the end of their regions: reading through one index
+		// is only right once the regions of the other indexes have been used up
+		for used := range sm.idxUsed {
+			for reg := range negScale {
+				if reg == used {
+					continue
+				}
+				if e := entry[bi][reg]; entryNeg[reg][bi] == 2 && !(e.lo == 0 && e.hi == 0) {
+					probs = append(probs, fmt.Sprintf("reads through the index %s while the pointers are still moved past the region of %s, which is not known to be used up", used, reg))
+				}
+			}
 		}
 		if overdraw != "" {
 			probs = append(probs, overdraw)
 		}
 		for o, wd := range sm.loadsX {
-			if o < 0 || (o+wd) > 4*lo {
-				probs = append(probs, fmt.Sprintf("reads bytes [%d,%d) through %s with only %d floats known to remain", o, o+wd, px, lo))
+			if o < 0 || (o+wd) > lo {
+				probs = append(probs, fmt.Sprintf("reads bytes [%d,%d) through %s with only %d floats known to remain", o, o+wd, px, lo/4))
 				break
 			}
 		}
 		for o, wd := range sm.loadsY {
-			if o < 0 || (o+wd) > 4*lo {
-				probs = append(probs, fmt.Sprintf("reads bytes [%d,%d) through %s with only %d floats known to remain", o, o+wd, py, lo))
+			if o < 0 || (o+wd) > lo {
+				probs = append(probs, fmt.Sprintf("reads bytes [%d,%d) through %s with only %d floats known to remain", o, o+wd, py, lo/4))
 				break
 			}
 		}
